@@ -1,5 +1,5 @@
 CONSTANTS
-  MaxN = 5
+  MaxN = 6
   Ages = {10, 17, 24, 25, 40, 70}
   NHH = 2
   Family = TRUE
